@@ -225,6 +225,48 @@ def run(chk):
         wj, sph2 = area_world(rng, nfeat=rng.randint(1, 3), plumes=0.0, cross=False)
         cs_area.add_world(wj)
         nsurf += 1
+    # slabs and faults that flatten towards their tip (the dip falls to zero along the last segment, "stagnant slab" / listric
+    # fault): the deepest points of the feature lie below min depth + sqrt(length^2 + thickness^2); only the sum length +
+    # thickness bounds them (theorem C07_reach_and_cutoff_chain)
+    import math as _m
+    for wi in range(6 if quick else 60):
+        rng.seed("%d/c07-4/%d" % (chk.seed, wi))
+        kind = ("subducting plate", "fault")[wi % 2]
+        x0, y0 = float(round(rng.uniform(-2e5, 2e5))), float(round(rng.uniform(-2e5, 2e5)))
+        L1, L2 = float(round(rng.uniform(3e5, 5e5))), float(round(rng.uniform(6e4, 1.2e5)))
+        th = float(round(rng.uniform(8e4, 1.1e5)))
+        top_dip = float(rng.choice([70.0, 80.0, 90.0]))
+        f = {"model": kind, "name": "flat", "coordinates": [[x0, y0 - 3e5], [x0, y0 + 3e5]], "dip point": [x0 + 1e6, y0],
+             "segments": [{"length": L1, "thickness": [th], "angle": [top_dip, 90.0]}, {"length": L2, "thickness": [th], "angle": [90.0, 0.0]}],
+             "composition models": [{"model": "uniform", "compositions": [0]}]}
+        if wi % 3 == 2:
+            f["min depth"] = float(round(rng.uniform(2e4, 1e5)))
+        wf = {"version": "1.1", "features": [f]}
+        a = cs.add_world(wf, model=False)
+        cs.raw("culling 0", "let () = out_str \"skip\"", {"kind": "hook"})
+        b = cs.add_world(wf, model=False)
+        cs.raw("culling 1", "let () = out_str \"skip\"", {"kind": "hook"})
+        # depth of the end of the first segment (arc from top_dip to 90 degrees), then the quarter circle of the second
+        t0 = _m.radians(top_dip)
+        if top_dip < 90.0:
+            # end of the arc whose dip grows linearly with arclength from t0 to 90 degrees (midpoint rule along the arc)
+            n_ = 2000
+            u1 = sum(_m.cos(t0 + (_m.pi / 2 - t0) * (k + 0.5) / n_) for k in range(n_)) * L1 / n_
+            v1 = sum(_m.sin(t0 + (_m.pi / 2 - t0) * (k + 0.5) / n_) for k in range(n_)) * L1 / n_
+        else:
+            u1, v1 = 0.0, L1
+        R2 = L2 / (_m.pi / 2)
+        for qi in range(40):
+            ph = rng.uniform(0.0, _m.pi / 2)          # position on the flattening quarter circle: dip = 90 deg - ph
+            off = rng.uniform(0.05, 0.95) * th * (1.0 if kind == "subducting plate" else rng.choice([-0.45, 0.45]))
+            dip = _m.pi / 2 - ph
+            su, sv = u1 + R2 * (1.0 - _m.cos(ph)), v1 + R2 * _m.sin(ph)
+            u, v = su - off * _m.sin(dip), sv + off * _m.cos(dip)
+            d = float(round(f.get("min depth", 0.0) + v))
+            pos = (x0 + u, y0 + rng.uniform(-2.5e5, 2.5e5), 1000e3 - d)
+            ia = cs.p3(a, pos, d, ALL)
+            ib = cs.p3(b, pos, d, ALL)
+            plan.append((ia, ib, wf))
     # the kd-guided triangle search and its fallbacks (longitude copy of the point, scan over all triangles) on irregular
     # triangulations across the +-180 meridian, written on either longitude branch (170..190 and -190..-170): every lookup
     # must give what a scan over all triangles gives (the model, bit for bit; an exception "not in any triangle" is a discarded point)
